@@ -2,6 +2,7 @@
 C15 — finite burns thrust for exactly their configured interval.
 -/
 import RV.Model.Burn
+import RV.Proofs.Burns
 import Mathlib.Algebra.Order.Field.Rat
 import Mathlib.Order.Lattice
 import Mathlib.Tactic.Linarith
@@ -9,7 +10,7 @@ import Mathlib.Tactic.Ring
 import Mathlib.Tactic.NormNum
 
 namespace RV.Props.C15
-open RV.Burn
+open RV.Burn RV.Proofs.Burns
 
 /-- position of `x` clipped into `[s, e]` -/
 def clip (s e x : Rat) : Rat := min (max x s) e
@@ -112,6 +113,184 @@ theorem burn_overrun_unrepaired :
     totalOn .startRootOnly 60 150 (fun k => (k : Rat) * 60) 4 = 120 ∧
     totalOn .phaseSwitch 60 150 (fun k => (k : Rat) * 60) 4 = 90 := by
   decide +kernel
+
+/-! ### several burns of one agent share one thrust slot -/
+
+/-- **each burn thrusts on its own interval whatever else is queued**: when the burns of an agent do not touch,
+then at every instant `t` of every propagation call the thrust slot holds burn `b` exactly when `t` lies in the
+interval on which the one-burn model has `b` on - the other queued burns neither switch it off nor replace it. -/
+theorem slot_is_own_interval (burns : List BurnIv) (hsep : Separated burns) (hlen : ∀ b ∈ burns, tol ≤ b.2 - b.1)
+    (t0 t1 t : Rat) (h0 : t0 ≤ t) (h1 : t < t1) (b : BurnIv) :
+    slotAt burns t0 t1 t = some b ↔
+      b ∈ burns ∧ ∃ lo hi, callOn .phaseSwitch b.1 b.2 t0 t1 = some (lo, hi) ∧ lo ≤ t ∧ t < hi := by
+  have hp := tol_pos
+  -- the shape of `callOn` in terms of `armedAfterPrep`
+  have hcall_armed : ∀ b : BurnIv, armedAfterPrep b t0 = true →
+      callOn .phaseSwitch b.1 b.2 t0 t1 = some (t0, if b.2 ≤ t1 then b.2 else t1) := by
+    intro b hb
+    have := hb
+    unfold armedAfterPrep at this
+    unfold callOn
+    simp only [this, if_true]
+  have hcall_un : ∀ b : BurnIv, armedAfterPrep b t0 = false →
+      callOn .phaseSwitch b.1 b.2 t0 t1 =
+        if t0 ≤ b.1 ∧ b.1 ≤ t1 then (if b.2 - b.1 < tol then none else some (b.1, if b.2 ≤ t1 then b.2 else t1)) else none := by
+    intro b hb
+    have := hb
+    unfold armedAfterPrep at this
+    unfold callOn
+    simp only [this, Bool.false_eq_true, if_false]
+  -- a root of another burn cannot lie inside this burn's interval
+  have hforeign : ∀ b ∈ burns, ∀ b' ∈ burns, ∀ c ∈ rootsOf b' t0 t1, b.1 ≤ c.time → c.time ≤ b.2 → b' = b := by
+    intro b hb b' hb' c hc hlo hhi
+    by_contra hne
+    obtain ⟨_, _, h3, h4, _⟩ := rootsOf_time (hlen b' hb') hc
+    rcases hsep.of_mem hb' hb hne with h | h <;> linarith
+  unfold slotAt slotAtWith
+  constructor
+  · intro h
+    cases hl : latest (allRoots burns t0 t1) t with
+    | none =>
+      rw [hl] at h
+      have hall := (latest_none_iff _ _).mp hl
+      obtain ⟨hb, harm⟩ := (prepSlot_eq_some_iff hsep t0 b).mp h
+      obtain ⟨⟨hs, he⟩, _⟩ := (armed_iff b t0).mp harm
+      refine ⟨hb, t0, (if b.2 ≤ t1 then b.2 else t1), hcall_armed b harm, h0, ?_⟩
+      by_cases het : b.2 ≤ t1
+      · simp only [het, if_true]
+        by_contra hc
+        have hmem : (⟨b.2, none⟩ : Change) ∈ allRoots burns t0 t1 := by
+          unfold allRoots
+          refine List.mem_flatMap.mpr ⟨b, hb, ?_⟩
+          unfold rootsOf
+          simp only [harm, if_true, het, List.mem_singleton]
+        have := hall _ hmem
+        simp only at this
+        linarith [not_lt.mp hc]
+      · simp only [het, if_false]; exact h1
+    | some c =>
+      rw [hl] at h
+      simp only at h
+      obtain ⟨hc1, hc2, hc3⟩ := latest_some hl
+      unfold allRoots at hc1
+      obtain ⟨b', hb', hcb'⟩ := List.mem_flatMap.mp hc1
+      rcases mem_rootsOf (hlen b' hb') hcb' with ⟨_, _, rfl⟩ | ⟨hun, hs0, hs1, rfl⟩ | ⟨_, _, _, rfl⟩
+      · simp only at h; cases h
+      · simp only [Option.some.injEq] at h
+        subst h
+        have hnt : ¬ (b'.2 - b'.1 < tol) := not_lt.mpr (hlen b' hb')
+        refine ⟨hb', b'.1, (if b'.2 ≤ t1 then b'.2 else t1), ?_, hc2, ?_⟩
+        · rw [hcall_un b' hun]; simp only [hs0, hs1, and_self, if_true, hnt, if_false]
+        · by_cases het : b'.2 ≤ t1
+          · simp only [het, if_true]
+            by_contra hc
+            have hmem : (⟨b'.2, none⟩ : Change) ∈ allRoots burns t0 t1 := by
+              unfold allRoots
+              refine List.mem_flatMap.mpr ⟨b', hb', ?_⟩
+              unfold rootsOf
+              simp [hun, hs0, hs1, hnt, het]
+            have := hc3 _ hmem (by simpa using not_lt.mp hc)
+            simp only at this
+            linarith [hlen b' hb']
+          · simp only [het, if_false]; exact h1
+      · simp only at h; cases h
+  · rintro ⟨hb, lo, hi, hcall, hlo, hhi⟩
+    have hse : b.1 < b.2 := by linarith [hlen b hb]
+    by_cases harm : armedAfterPrep b t0 = true
+    · rw [hcall_armed b harm] at hcall
+      simp only [Option.some.injEq, Prod.mk.injEq] at hcall
+      obtain ⟨rfl, rfl⟩ := hcall
+      obtain ⟨⟨hs, he⟩, _⟩ := (armed_iff b t0).mp harm
+      have hte : t < b.2 := by
+        by_cases het : b.2 ≤ t1
+        · simpa only [het, if_true] using hhi
+        · linarith [not_le.mp het]
+      -- no root has fired yet
+      have hnone : latest (allRoots burns t0 t1) t = none := by
+        rw [latest_none_iff]
+        intro c hc
+        unfold allRoots at hc
+        obtain ⟨b', hb', hcb'⟩ := List.mem_flatMap.mp hc
+        by_contra hct
+        have hct := not_lt.mp hct
+        obtain ⟨hc0, _, _, _, _⟩ := rootsOf_time (hlen b' hb') hcb'
+        have hbb : b' = b := hforeign b hb b' hb' c hcb' (by linarith) (by linarith)
+        subst hbb
+        unfold rootsOf at hcb'
+        simp only [harm, if_true] at hcb'
+        by_cases het : b'.2 ≤ t1
+        · simp only [het, if_true, List.mem_singleton] at hcb'
+          subst hcb'
+          simp only at hct
+          linarith
+        · simp only [het, if_false, List.not_mem_nil] at hcb'
+      rw [hnone]
+      exact (prepSlot_eq_some_iff hsep t0 b).mpr ⟨hb, harm⟩
+    · have hun : armedAfterPrep b t0 = false := by simpa using harm
+      rw [hcall_un b hun] at hcall
+      by_cases hin : t0 ≤ b.1 ∧ b.1 ≤ t1
+      · have hnt : ¬ (b.2 - b.1 < tol) := not_lt.mpr (hlen b hb)
+        simp only [hin, and_self, if_true, hnt, if_false, Option.some.injEq, Prod.mk.injEq] at hcall
+        obtain ⟨rfl, rfl⟩ := hcall
+        have hte : t < b.2 := by
+          by_cases het : b.2 ≤ t1
+          · simpa only [het, if_true] using hhi
+          · linarith [not_le.mp het]
+        have hon : (⟨b.1, some b⟩ : Change) ∈ allRoots burns t0 t1 := by
+          unfold allRoots
+          refine List.mem_flatMap.mpr ⟨b, hb, ?_⟩
+          unfold rootsOf
+          simp only [hun, Bool.false_eq_true, if_false, hin, and_self, if_true, hnt, List.mem_cons, true_or]
+        cases hl : latest (allRoots burns t0 t1) t with
+        | none =>
+          have := (latest_none_iff _ _).mp hl _ hon
+          simp only at this
+          linarith
+        | some c =>
+          simp only
+          obtain ⟨hc1, hc2, hc3⟩ := latest_some hl
+          have hge := hc3 _ hon hlo
+          simp only at hge
+          unfold allRoots at hc1
+          obtain ⟨b', hb', hcb'⟩ := List.mem_flatMap.mp hc1
+          have hbb : b' = b := hforeign b hb b' hb' c hcb' hge (by linarith)
+          subst hbb
+          rcases mem_rootsOf (hlen b' hb') hcb' with ⟨ha, _, _⟩ | ⟨_, _, _, rfl⟩ | ⟨_, _, _, rfl⟩
+          · rw [ha] at hun; cases hun
+          · rfl
+          · simp only at hc2; linarith
+      · simp only [hin, if_false] at hcall; cases hcall
+
+/-- hence every one of several separated burns is on for exactly its own `end - start`, over any division into calls
+(`burn_duration` applies to each, the slot being that burn's exactly on its own intervals). -/
+theorem each_burn_own_duration (burns : List BurnIv) (hsep : Separated burns) (hlen : ∀ b ∈ burns, tol ≤ b.2 - b.1)
+    (t : Nat → Rat) (N : Nat) (ht : ∀ k, k < N → t k < t (k + 1)) (b : BurnIv) (hb : b ∈ burns)
+    (h0 : t 0 ≤ b.1) (hN : b.2 ≤ t N) (htol : ∀ k, k < N → ¬ (0 < b.2 - t k ∧ b.2 - t k < tol)) :
+    totalOn .phaseSwitch b.1 b.2 t N = b.2 - b.1 ∧
+    ∀ k, k < N → ∀ x, t k ≤ x → x < t (k + 1) →
+      (slotAt burns (t k) (t (k + 1)) x = some b ↔
+        ∃ lo hi, callOn .phaseSwitch b.1 b.2 (t k) (t (k + 1)) = some (lo, hi) ∧ lo ≤ x ∧ x < hi) := by
+  refine ⟨burn_duration b.1 b.2 t N (hlen b hb) ht h0 hN htol, ?_⟩
+  intro k _ x hx0 hx1
+  rw [slot_is_own_interval burns hsep hlen (t k) (t (k + 1)) x hx0 hx1 b]
+  exact ⟨fun h => h.2, fun h => ⟨hb, h⟩⟩
+
+/-- the single slot is why the hypothesis is needed, and why `_prepEvents` must leave the slot alone for burns that
+are not under way: (1) with *overlapping* burns the end of the inner one empties the slot while the outer one should
+still thrust (outside the property: it speaks of a burn, not of simultaneous ones); (2) a `_prepEvents` that writes
+`None` for every burn not under way lets a later queued burn switch off the one that is (a seeded change). -/
+theorem slot_witnesses :
+    slotAt [(10, 100), (20, 30)] 0 60 40 = none ∧
+    slotAt [(10, 100), (120, 130)] 60 120 70 = some (10, 100) ∧
+    slotAtWith .clobber [(10, 100), (120, 130)] 60 120 70 = none ∧
+    slotAtWith .clobber [(120, 130), (10, 100)] 60 120 70 = some (10, 100) := by
+  decide +kernel
+
+example : Separated [(10, 100), (120, 130)] ∧ (∀ b ∈ [((10 : Rat), (100 : Rat)), (120, 130)], tol ≤ b.2 - b.1) := by
+  refine ⟨by unfold Separated; simp; norm_num, ?_⟩
+  intro b hb
+  simp only [List.mem_cons, List.not_mem_nil, or_false] at hb
+  rcases hb with rfl | rfl <;> (unfold tol; norm_num)
 
 /-! ### non-vacuity -/
 example : totalOn .phaseSwitch 70 130 (fun k => (k : Rat) * 60) 4 = 60 ∧
